@@ -555,6 +555,15 @@ mod huffman {
                 }
             }
             levels.sort_by(|x, y| x.0.cmp(&y.0));
+            if let [(0, sym)] = levels[..] {
+                // A lone symbol still needs one bit; both bit values decode to it.
+                let mut encode = BTreeMap::new();
+                let mut decode = Decode::map();
+                encode.insert(sym.clone(), (1, 0));
+                Self::insert_decode(&mut decode, sym, 1, 0);
+                Self::insert_decode(&mut decode, sym, 1, 1 << 63);
+                return Huffman { encode, decode };
+            }
             let mut code: u64 = 0;
             let mut prev_level = 0;
             let mut encode = BTreeMap::new();
